@@ -220,6 +220,14 @@ class C02(Prop):
                 for i in range(1, len(s)):
                     parts = G.cut_at(s, [i])
                     ctx.add("resp", [dels(parts)], group=("seg", s), stream=s, parts=parts)
+        # header lines that begin like a status line or a request line, every single cut: no stage may
+        # take them for the start of a message
+        for hname in (b"HTTP/Upstream-Version", b"HTTP/1.1", b"GET"):
+            for tail in (b"Content-Length: 3\r\n\r\nabcZ", b"\r\n", b"Transfer-Encoding: chunked\r\n\r\n1\r\na\r\n0\r\n\r\n"):
+                s = b"HTTP/1.1 200 OK\r\nA: b\r\n" + hname + b": 1.0\r\nC: d\r\n" + tail
+                for i in range(1, len(s)):
+                    parts = G.cut_at(s, [i])
+                    ctx.add("resp", [dels(parts)], group=("seg", s), stream=s, parts=parts)
         maxn = ctx.n(10, 14)
         for s in shorts:
             free = min(len(s) - 1, maxn - 1)
@@ -507,6 +515,13 @@ class C06(Prop):
         for hl in ("0", "1", "2", "3", "10", "d", "-"):
             for hs in ([], [("A", "b")], [("Name", "some value that is long")], [("A", "b c d e f g h i j k")]):
                 ctx.add("genreq", ["d", hl, "d", hx(b"GET"), hx(b"/"), hdrs_spec(hs), hx(b"")], gen_hl=hl, nhdrs=len(hs))
+        # generate on values whose Content-Length says more (or less, or nonsense) than the body holds: a partly
+        # received message, a HEAD-style head, an enormous declared length
+        for cl in ("0", "1", "5", "10", "1234", "18446744073709551615", "18446744073709551616", "abc", "-1", "5, 5", ""):
+            for body in (b"", b"abc", b"hello world"):
+                for extra in ([], [("Transfer-Encoding", "chunked")]):
+                    ctx.add("genresp", [rng.choice([200, 204, 206, 304]), hx(b"OK"), hdrs_spec([("Content-Length", cl)] + extra), hx(body)])
+                    ctx.add("genreq", ["d", "d", "d", hx(b"POST"), hx(b"/"), hdrs_spec([("content-length", cl)] + extra), hx(body)], gen_hl="d", nhdrs=1)
         for _ in range(ctx.n(100, 1000)):
             add_decode_case(ctx, damaged=True)
             add_text_case(ctx)
@@ -554,7 +569,7 @@ class C07(Prop):
                 parts = rng.choice(G.schedules(rng, s, 2))
                 ctx.add("req", ["d", "d", mm, dels(parts)], declared=declared, supplied=supplied, presented=len(s), mm=mm)
             elif k < 0.7:
-                s = b"HTTP/1.1 200 OK\r\nContent-Length: %d\r\n\r\n" % declared + body
+                s = rng.choice(G.STATUS_LINES) + b"\r\nContent-Length: %d\r\n\r\n" % declared + body
                 parts = rng.choice(G.schedules(rng, s, 2))
                 ctx.add("resp", [dels(parts)], declared=declared, supplied=supplied, presented=len(s))
             else:
@@ -887,6 +902,17 @@ class C10(Prop):
             meth, target, hs, body = wf_request_value(rng)
             cut = rng.choice(["-", "-", "cr", str(rng.randrange(0, 400))])
             ctx.add("genreq", ["d", "d", "d", hx(meth), hx(target), hdrs_spec(hs), hx(body), cut], target=target, wf=True)
+        # a value whose generated size is exactly the maximum message size (or one below it), parsed back in two
+        # deliveries cut at the end of the headers, inside the body, before its last byte
+        for _ in range(ctx.n(60, 600)):
+            meth, target = rng.choice([b"POST", b"PUT"]), rng.choice([b"/", b"/submit", b"/a/b?c=d"])
+            body = G.gen_body(rng, 30) or b"x"
+            hs = [(b"Host", b"a")] * rng.randint(0, 1) + [(rng.choice(G.CL_NAMES), b"%d" % len(body))]
+            head = len(meth) + 1 + len(target) + 1 + 8 + 2 + sum(len(n) + 2 + len(v) + 2 for n, v in hs) + 2
+            total = head + len(body)
+            for mm in (total, total + 1):
+                for cut in {head, head + 1, total - 1, rng.randrange(1, total)}:
+                    ctx.add("genreq", ["d", "d", str(mm), hx(meth), hx(target), hdrs_spec(hs), hx(body), str(cut)], target=target, wf=True)
         for _ in range(ctx.n(600, 6000)):
             _, _, hs, body = wf_request_value(rng)
             if not any(n.lower() == b"content-length" for n, _ in hs):
@@ -1044,7 +1070,7 @@ class C12(Prop):
                 enc += b"%x\r\n" % n + payload[i:i + n] + b"\r\n"
                 i += n
             enc += b"0\r\n" + G.block([n + b": " + v for n, v in T])
-            s = b"HTTP/1.1 200 OK\r\n" + G.block([n + b": " + v for n, v in H]) + enc
+            s = rng.choice(G.STATUS_LINES) + b"\r\n" + G.block([n + b": " + v for n, v in H]) + enc
             parts = [s] if rng.random() < 0.6 else rng.choice(G.schedules(rng, s, 3)[1:])
             ctx.add("resp", [dels(parts)], H=H, T=T, payload=payload)
 
@@ -1103,8 +1129,10 @@ def add_decode_case(ctx, damaged=False, stack_only=False):
         toks.insert(unknown_at, rng.choice(["identity", "br", "x-gzip", "", "gzipp", "compress", " "]))
     hs = []
     for _ in range(rng.randint(0, 2)):
-        hs.append((rng.choice(["X-A", "Content-Type", "Content-Length", "content-length", "Host", "Transfer-Encoding", "transfer-encoding", "Trailer"]),
-                   rng.choice(["1", "text/plain", "zz", "foobar", "gzip"])))
+        hs.append((rng.choice(["X-A", "Content-Type", "Content-Length", "content-length", "Host", "Transfer-Encoding", "transfer-encoding", "Trailer",
+                               "Content-MD5", "Digest", "ETag", "Content-Range", "Vary", "Content-Location", "content-md5", "Set-Cookie",
+                               "Content-Encoding-X", "X-Content-Encoding", "Accept-Encoding", "Last-Modified", "Content-Language"]),
+                   rng.choice(["1", "text/plain", "zz", "foobar", "gzip", "\"abc\"", "W/\"x\"", "Q2hlY2sgSW50ZWdyaXR5IQ==", "bytes 0-4/10", "Accept-Encoding"])))
     # spread tokens over one or two Content-Encoding headers
     if len(toks) > 1 and rng.random() < 0.3:
         k = rng.randint(1, len(toks) - 1)
@@ -1264,6 +1292,34 @@ class C15(Prop):
         # the witness of known finding K5, every run: zlib body 78 da 3b ... with one bit of its first byte flipped
         k5 = bytes.fromhex("7ada3b38a7f5370006e102de")
         ctx.add("dec", [hdrs_spec([("Content-Encoding", "deflate")]), hx(k5)], plain=bytes.fromhex("c19c85fb"), dmg="flip", fmt="zlib", data=k5)
+        # a zlib body made of stored blocks whose bytes, read from the first byte as a bare deflate stream, are a
+        # complete stream too (78 = a non-final stored block header; the first real block has LEN fffe so that its
+        # LEN/NLEN read as NLEN/data of the bare reading; the content continues the framing): intact it must
+        # decode to its content, damaged it must fail -- a second reading must never rescue it
+        import zlib as _z
+        content = bytes.fromhex("0000ffff010000ffff") + bytes(rng.randrange(256) for _ in range(0xFFFE - 9))
+        poly = b"\x78\x01" + b"\x00\xfe\xff\x01\x00" + content + b"\x01\x00\x00\xff\xff" + _z.adler32(content).to_bytes(4, "big")
+        assert _z.decompress(poly) == content
+        hs = [("Content-Encoding", "deflate")]
+        ctx.add("dec", [hdrs_spec(hs), hx(poly)], plain=content, dmg=None, fmt="zlib")
+        for i in range(len(poly) - 4, len(poly)):
+            d2 = poly[:i] + bytes([(poly[i] + rng.choice([1, 0x80])) % 256]) + poly[i + 1:]
+            ctx.add("dec", [hdrs_spec(hs), hx(d2)], plain=content, dmg="integrity", fmt="zlib")
+        for cut in (16, 17, 100, len(poly) // 2, len(poly) - 9, len(poly) - 5, len(poly) - 1):
+            ctx.add("dec", [hdrs_spec(hs), hx(poly[:cut])], plain=content, dmg="trunc", fmt="zlib")
+        # the same headers (entity tag included) and the same coded length twice on one thread: first intact,
+        # then damaged -- nothing remembered from the first call may stand in for decoding the second body
+        for _ in range(ctx.n(40, 300)):
+            plain = G.gen_plain(rng) or b"x"
+            fmt, tok = rng.choice((("gzip", "gzip"), ("zlib", "deflate")))
+            data = G.CODERS[fmt](rng, plain)
+            tail = 8 if fmt == "gzip" else 4
+            i = rng.choice(list(range(len(data) - tail, len(data))) + ([0, 1] if fmt == "gzip" else []))
+            bad = data[:i] + bytes([(data[i] + rng.choice([1, 0x80, 0x55])) % 256]) + data[i + 1:]
+            hs = [("ETag", rng.choice(['"v1"', '"abc"', 'W/"v1"'])), ("Content-Encoding", tok)] if rng.random() < 0.8 else [("Content-Encoding", tok)]
+            if rng.random() < 0.3:
+                hs.append(("Content-MD5", "Q2hlY2sgSW50ZWdyaXR5IQ=="))
+            ctx.add("decseq", [hdrs_spec(hs), hx(data), hdrs_spec(hs), hx(bad)], plain=plain, dmg="integrity", fmt=fmt, seq=True)
         # large, highly repetitive content (decoded size >> coded size): the end-of-stream checks still apply
         line = b"GET /index.html HTTP/1.1 200 1234 \"-\" \"agent\"\n"
         for size in (65536, 100000) + ((300000,) if ctx.thorough else ()):
@@ -1286,6 +1342,8 @@ class C15(Prop):
     def relations(self, ctx, impl):
         for cid, m in ctx.meta.items():
             canon = impl[cid][0]
+            if m.get("seq"):
+                canon = canon.split("|")[-1]        # several calls on one thread: the last one is judged
             f = fields_of(canon)
             if m["dmg"] is None and m.get("fmt") and m.get("plain") is not None and "stack" not in m:
                 if not canon.startswith("ok") or bytes.fromhex(f.get("b", "")) != m["plain"]:
@@ -1393,6 +1451,17 @@ class C16(Prop):
     def gen(self, ctx):
         for _ in range(ctx.n(1500, 15000)):
             add_text_case(ctx)
+        # long bodies with a multi-byte character sliding across the offsets where a block-wise decoder would
+        # cut (powers of two from 1 KiB to 64 KiB): valid text stays text, whatever its length
+        rng = ctx.rng
+        for w in ("\u00e9", "\u20ac", "\U0001f600"):
+            wb = w.encode()
+            for block in (1024, 4096, 8192, 16384, 65536) if ctx.thorough else (1024, 4096, 8192, 65536):
+                for k in (1, 2) if block < 65536 else (1,):
+                    for off in range(-len(wb), 1):
+                        body = b"a" * (k * block + off) + wb + b"b" * rng.randint(0, 40)
+                        for ct in ("text/plain; charset=utf-8", "text/plain"):
+                            ctx.add("txt", [hdrs_spec([("Content-Type", ct)]), hx(body)], hs=[("Content-Type", ct)], body=body)
         # decoders exhaustively on short inputs
         import itertools
         maxlen = ctx.n(1, 2)
